@@ -38,17 +38,20 @@ func (s *Status) MarshalText() ([]byte, error) {
 }
 
 func (s *Status) UnmarshalText(b []byte) error {
-	if len(b) == 0 {
-		return nil
-	}
-
 	parts := strings.SplitN(string(b), " ", 3)
 	if len(parts) != 3 {
-		return fmt.Errorf("webdav: invalid HTTP status %q: expected 3 fields", s)
+		return fmt.Errorf("webdav: invalid HTTP status %q: expected 3 fields", b)
+	}
+	if !strings.HasPrefix(parts[0], "HTTP/") {
+		return fmt.Errorf("webdav: invalid HTTP status %q: expected an HTTP version", b)
+	}
+	// strconv.Atoi alone would also accept a sign and any number of digits
+	if len(parts[1]) != 3 || strings.Trim(parts[1], "0123456789") != "" {
+		return fmt.Errorf("webdav: invalid HTTP status %q: expected a 3-digit code", b)
 	}
 	code, err := strconv.Atoi(parts[1])
 	if err != nil {
-		return fmt.Errorf("webdav: invalid HTTP status %q: failed to parse code: %v", s, err)
+		return fmt.Errorf("webdav: invalid HTTP status %q: failed to parse code: %v", b, err)
 	}
 
 	s.Code = code
